@@ -7,7 +7,7 @@ Local Open Scope nat_scope.
 Section Top.
   Variable c : cfg.
   Let d := cData c.
-  Hypothesis Hhs : has_state (cT c) = true.
+  Hypothesis Hst : state_ok c.
   Hypothesis Hmemo : o_memoize (cO c) = false.
   Hypothesis HG : G_wf c.
   Hypothesis Hstale : stale_ok c.
@@ -76,7 +76,7 @@ Section Top.
     set (s1 := set_rstack [r] (read c (init_state c))).
     assert (HI1 : I c s1) by (pose proof I_init as [A B C0]; constructor; auto).
     change (pushV (set_rstack [r] (read c (init_state c)))) with (pushV s1).
-    pose proof (impl_refines_ref c Hhs Hmemo HG Hstale Hnolr fuel (r_expr r) (pushV s1) [] (mkSig 0 [])
+    pose proof (impl_refines_ref c Hst Hmemo HG Hstale Hnolr fuel (r_expr r) (pushV s1) [] (mkSig 0 [])
                   (land c None 0 mu0) [] (Some r) false Hwf (Forall_nil _) (I_pushV c _ HI1) (Sim_init r)) as Hs.
     pose proof (parseExprWrap_inv c fuel (r_expr r) (pushV s1) (I_pushV c _ HI1)) as Hw.
     unfold sim_res in Hs.
